@@ -9,7 +9,8 @@
 (* member, names that need ~0/~1, index = len, len+1, "-", negative        *)
 (* indices, a non-numeric token on an array, a child of a scalar, an       *)
 (* absent ancestor).  Cases the properties place outside their domain are  *)
-(* recognised by the spec itself (result "dc") and are not taken.          *)
+(* recognised by the spec itself (result "dc"): such a step ends the run,  *)
+(* and the replayer does not compare its result.                           *)
 (***************************************************************************)
 EXTENDS Patch6902, Json
 
@@ -60,7 +61,7 @@ SeedTable == <<
          Mem(ce, Arr(<<>>)) >>),
   \* 5: small documents for deep runs
   Obj(<< Mem(ca, Arr(<<N1, Null>>)), Mem(cb, Obj(<<>>)) >>),
-  Arr(<< N1, Obj(<<Mem(ca, Null)>>) >>),
+  Arr(<< N1, Obj(<<Mem(ca, Null), Mem(cb, N10)>>) >>),            \* 6: (a null member that is NOT the last one of its object)
   \* 7: strings and names with HTML-sensitive and other awkward characters (C12, C15)
   Obj(<< Mem(<<107,8233>>, N1),                                  \* a member NAME with U+2029 and nothing else to escape
          Mem(<<60,107>>, Str(<<38,62>>)),
@@ -122,9 +123,11 @@ Deep(d, W)    == { p \o <<cq, cr>> : p \in { q \in Paths(d) : Len(q) <= 1 /\ At(
 \* next token), array->object with padding, new array with padding, names that need ~1 / ~0
 EnsureTails(v) ==
   CASE v.t = "obj" -> { <<cq, <<48>>>>, <<cq, <<45>>>>, <<cq, <<50>>>>, <<cq, cr, cs>>, <<cq, <<50>>, cr>>,
-                        <<<<113,47,114>>, <<109,126,110>>>>, <<cq, <<48>>, <<49>>>> }
+                        <<<<113,47,114>>, <<109,126,110>>>>, <<cq, <<48>>, <<49>>>>,
+                        <<<<48>>, cr>>, <<<<55>>, <<45>>>>, <<<<55>>, <<48>>, cr>> }      \* a missing member whose NAME is a number
     [] v.t = "arr" -> LET n == Len(v.e) IN
                       { <<NatCps(n), cr>>, <<NatCps(n+2), cr>>, <<NatCps(n+1), <<49>>>>, <<NatCps(n), <<45>>>> }
+    [] v.t = "null" -> { <<cr>>, <<<<48>>>> }      \* through a null: outside C14's domain (the result is not compared; order and panics are)
     [] OTHER -> {}
 EnsurePtrs(d) == UNION { { p \o t : t \in EnsureTails(At(d, p)) } : p \in { q \in Paths(d) : Len(q) <= 2 } }
 
@@ -168,9 +171,8 @@ MCInit == \E s \in SeedIds, o \in OptIds : PInit(SeedTable[s], OptOf(o))
 MCNext ==
   /\ status = "run"
   /\ Len(ops) < MaxOps
-  /\ \E op \in OpsOf(doc, Len(ops) + 1) :
-        /\ ApplyOp(doc, op, opts, copied, NoSz).r.k # "dc"
-        /\ Step(op)
+  /\ \E op \in OpsOf(doc, Len(ops) + 1) : Step(op)      \* a don't-care step is taken too (status "dc" ends the run): the
+                                                           \* replayer executes it for everything but the comparison of results
 
 MCSpec == MCInit /\ [][MCNext]_pvars
 
